@@ -191,3 +191,12 @@ package ice
 //@   props C16
 //@   requires in-range: 0 <= start && start <= len(raw)
 //@   ensures position-stays-inside-the-text: err == nil ==> start <= pos && pos <= len(raw)
+
+// The textual form of a candidate names only the transport ("udp"/"tcp"); the parser recovers the network
+// type from that and the address. So the family half of the network type must be a function of the
+// address alone (the unmapped address: IPv4-in-IPv6 counts as IPv4), whatever else the network string says.
+//@ func determineNetworkType
+//@   props C16 C18
+//@   ensures the-family-is-that-of-the-unmapped-address-alone: result1 == nil ==> ((result0 == NetworkTypeUDP4 || result0 == NetworkTypeTCP4) == addrIs4(addrUnmap(ip))) && ((result0 == NetworkTypeUDP6 || result0 == NetworkTypeTCP6) == !addrIs4(addrUnmap(ip)))
+//@   ensures the-transport-is-the-prefix-of-the-network-string: result1 == nil ==> ((result0 == NetworkTypeUDP4 || result0 == NetworkTypeUDP6) ==> strHasPrefix(strLower(network), "udp")) && ((result0 == NetworkTypeTCP4 || result0 == NetworkTypeTCP6) ==> strHasPrefix(strLower(network), "tcp"))
+//@   ensures a-udp-or-tcp-network-is-always-classified: strHasPrefix(strLower(network), "udp") || strHasPrefix(strLower(network), "tcp") ==> result1 == nil
